@@ -286,6 +286,12 @@ macro_rules! full_registry {
             .symbol::<Rec>("M9")
             .symbol::<Rec>("M10")
             .symbol::<Rec>("M11")
+            .symbol::<Rec>("NX")
+            .symbol::<Rec>("NY")
+            .symbol::<Rec>("NBox")
+            .symbol::<Rec>("NIface")
+            .symbol::<Rec>("NImpl")
+            .symbol::<Rec>("NHost")
     };
 }
 
@@ -633,6 +639,9 @@ pub enum Mutation {
     GenericWithoutArgs,
     WrongArity,
     NonConformingArg,
+    /// the argument has a submodule of the same name and the same generic type symbol as the bound's, but instantiated
+    /// with a structurally different type (Box(Y) where the bound has Box(X))
+    NestedInstantiationDiffers,
     GenericModuleAsArg,
     BindingAsArg,
     BindingWithArgs,
@@ -660,6 +669,7 @@ pub const MUTATIONS: &[Mutation] = &[
     Mutation::GenericWithoutArgs,
     Mutation::WrongArity,
     Mutation::NonConformingArg,
+    Mutation::NestedInstantiationDiffers,
     Mutation::GenericModuleAsArg,
     Mutation::BindingAsArg,
     Mutation::BindingWithArgs,
@@ -846,6 +856,35 @@ pub fn mutate(doc: &Doc, m: Mutation, rng: &mut Rng) -> Option<(String, bool)> {
             d.modules.push(ModDecl { name: "Hollow".into(), generics: vec![], inherit: None, gates: vec![], subs: vec![], conns: vec![] });
             d.modules[i].subs[k].args = vec!["Hollow".into()];
             Some((render(&d), reachable(&d, i)))
+        }
+        Mutation::NestedInstantiationDiffers => {
+            let plain = |name: &str, gates: Vec<Field>, subs: Vec<Sub>| ModDecl { name: name.into(), generics: vec![], inherit: None, gates, subs, conns: vec![] };
+            let atom = |n: &str| Field { name: n.into(), card: None };
+            let conforming = rng.chance(1, 4);
+            d.modules.push(plain("NX", vec![atom("p")], vec![]));
+            d.modules.push(plain("NY", vec![], vec![]));
+            d.modules.push(ModDecl {
+                name: "NBox".into(),
+                generics: vec![("C".into(), "NY".into())],
+                inherit: None,
+                gates: vec![],
+                subs: vec![Sub { field: atom("c"), typ: "C".into(), args: vec![] }],
+                conns: vec![],
+            });
+            d.modules.push(plain("NIface", vec![], vec![Sub { field: atom("s"), typ: "NBox".into(), args: vec!["NX".into()] }]));
+            // the control (a quarter of the cases) instantiates with the same type and must be accepted
+            d.modules.push(plain("NImpl", vec![], vec![Sub { field: atom("s"), typ: "NBox".into(), args: vec![if conforming { "NX".into() } else { "NY".into() }] }]));
+            d.modules.push(ModDecl {
+                name: "NHost".into(),
+                generics: vec![("T".into(), "NIface".into())],
+                inherit: None,
+                gates: vec![],
+                subs: vec![Sub { field: atom("t"), typ: "T".into(), args: vec![] }],
+                conns: vec![],
+            });
+            let e = d.modules.iter().position(|x| x.name == d.entry)?;
+            d.modules[e].subs.push(Sub { field: atom("nh"), typ: "NHost".into(), args: vec!["NImpl".into()] });
+            Some((render(&d), !conforming))
         }
         Mutation::GenericModuleAsArg => {
             let (i, k) = *instantiations.get(rng.usize_below(instantiations.len().max(1)))?;
